@@ -138,7 +138,14 @@ func genProfile(r *rand.Rand) *profile.Profile {
 			id = uint64(1<<40) + uint64(i)
 		}
 		name := []string{"f0", "_Z3fooi", "<unknown>", "ns::g(int)", "main"}[r.Intn(5)]
-		p.Function = append(p.Function, &profile.Function{ID: id, Name: name, SystemName: name, Filename: "x.c"})
+		f := &profile.Function{ID: id, Name: name, SystemName: name, Filename: "x.c"}
+		switch r.Intn(6) {
+		case 0:
+			f.SystemName = "" // display name only
+		case 1:
+			f.SystemName = "_Zmangled" + name
+		}
+		p.Function = append(p.Function, f)
 	}
 	// occasionally make id == len(Function)+1 collide with an existing one
 	if r.Intn(2) == 0 {
